@@ -142,3 +142,15 @@ Proof.
   { unfold s1. rewrite seq_of_set. destruct (String.eqb_spec name "Seen"); [contradiction|reflexivity]. }
   destruct recent; [exact H1|]. rewrite seq_of_set. destruct (String.eqb_spec name "Recent"); [contradiction|exact H1].
 Qed.
+
+(* reading twice changes nothing more: a second look at an unchanged folder derives the same sets *)
+Theorem update_seen_idempotent msg_keys s recent name k :
+  In k (seq_of (update_seen msg_keys (update_seen msg_keys s recent) []) name) <->
+  In k (seq_of (update_seen msg_keys s recent) name).
+Proof.
+  destruct (String.eqb_spec name "Seen") as [->|NS].
+  - rewrite !update_seen_seen. rewrite (update_seen_others msg_keys s recent "unseen") by discriminate. reflexivity.
+  - destruct (String.eqb_spec name "Recent") as [->|NR].
+    + rewrite (update_seen_recent msg_keys (update_seen msg_keys s recent) []). cbn [In]. intuition.
+    + rewrite (update_seen_others msg_keys (update_seen msg_keys s recent) [] name) by assumption. reflexivity.
+Qed.
